@@ -1,6 +1,7 @@
 package props
 
 import (
+	"bytes"
 	"crypto"
 	"crypto/aes"
 	"crypto/cipher"
@@ -617,7 +618,10 @@ func c07Differential(c *core.Ctx) {
 			judge(t3Request(pa.RequestKey, pa.NameKeyID, pa.Ciphertext, sig), "signature-s-negated")
 		}
 		// padded origin variants sealed properly
-		for _, po := range [][]byte{refPadOrigin(origin), append(refPadOrigin(origin), make([]byte, 32)...), []byte(origin), append([]byte(origin), 0), nil, make([]byte, 64)} {
+		for _, po := range [][]byte{refPadOrigin(origin), append(refPadOrigin(origin), make([]byte, 32)...), []byte(origin), append([]byte(origin), 0), nil, make([]byte, 64),
+			// fields that are not a whole number of blocks: a registered name, zero padding, then more bytes
+			append(refPadOrigin(origin), 'x', 'y', 'z'), append(refPadOrigin(origin), 0, 0, 1), append(append(refPadOrigin(origin), make([]byte, 32)...), 'q'), append([]byte(origin), 0, 0, 'x'),
+			append(make([]byte, 32), []byte(origin)...), append(refPadOrigin(origin), refPadOrigin(origin)...)} {
 			judge(w.build(r, c07Opts{origin: origin, paddedOrigin: po}).enc, "padded-origin-variant")
 		}
 		// inner request variants: blinded message out of range, truncated, trailing
@@ -632,6 +636,24 @@ func c07Differential(c *core.Ctx) {
 		// sealed to the other issuer, or with an altered AAD
 		judge(w.build(r, c07Opts{origin: origin, sealTo: w.nkO}).enc, "foreign-name-key")
 		judge(w.build(r, c07Opts{origin: origin, aadMod: func(x []byte) []byte { o := clone(x); o[r.IntN(len(o))] ^= 1; return o }}).enc, "aad-bitflip")
+		// request keys that are not (canonical) encodings of a P-384 point, sealed with an AAD that carries exactly those
+		// bytes and signed over them, so that decryption succeeds and the key is first looked at afterwards
+		if i%4 == 0 {
+			for _, hk := range hostileKeyEncodings(r, pa.RequestKey) {
+				if len(hk) == 49 && !bytes.Equal(hk, pa.RequestKey) {
+					judge(w.build(r, c07Opts{origin: origin, requestKey: hk}).enc, "hostile-request-key-sealed-for-it")
+				}
+			}
+		}
+		// near misses by a multiple of 256 bytes in length (a registered name followed by 256, 512 more bytes)
+		if i%8 == 1 {
+			for _, extra := range []int{256, 512, 65280} {
+				if len(origin)+extra < 65000 {
+					judge(w.build(r, c07Opts{origin: origin + string(bytes.Repeat([]byte{'a'}, extra))}).enc, "origin-plus-multiple-of-256-bytes")
+					judge(w.build(r, c07Opts{origin: origin + string(append(make([]byte, extra-1), 'a'))}).enc, "origin-plus-multiple-of-256-bytes")
+				}
+			}
+		}
 		// truncations / extensions at seeded positions
 		judge(a.enc[:r.IntN(len(a.enc))], "truncated")
 		judge(append(clone(a.enc), r.Bytes(1+r.IntN(5))...), "extended")
